@@ -9,7 +9,7 @@ from .. import session as S
 from .. import algos as A
 from . import partcommon as PC
 
-PATTERNS = ["neg", "const", "tied", "noisy", "huge", "tiny", "zero", "peak", "gridpm"]
+PATTERNS = ["neg", "const", "tied", "noisy", "huge", "tiny", "zero", "peak", "gridpm", "ramp", "rampdown"]
 
 
 def loguni(rnd, a, b):
@@ -101,6 +101,12 @@ def make_cfgs(tier):
     for (algo, prm, n, T) in corners:
         i += 1
         cfgs.append({"id": i, "algo": algo, "kind": "bin", "K": 2, "D": 1, "box": [[0.0, 1.0]], "n": n, "T": T, "prm": prm, "pattern": "noisy", "seed": rnd.randrange(1 << 30), "timeout": 30})
+    # greedy searches driven along a face of the box by a monotone objective (deep chains of first / last children)
+    for algo in ("DOO", "SOO", "SequOOL", "HCT", "T_HOO"):
+        for (kind, K) in (("kary", 5), ("kary", 3), ("rkary", 4), ("bin", 2), ("dbin", 2)):
+            for pat in ("ramp", "rampdown"):
+                i += 1
+                cfgs.append({"id": i, "algo": algo, "kind": kind, "K": K, "D": 1, "box": rnd.choice([[[0.0, 1.0]], [[0.1, 0.7]], [[-1.5, 2.25]]]), "n": 150, "T": 150, "prm": {}, "pattern": pat, "seed": rnd.randrange(1 << 30), "timeout": 30})
     # the ends of the float range: tiny, subnormal, huge, and a box whose bounds sum overflows (finding F15)
     for j, box in enumerate(([[1e-300, 2e-300]], [[5e-324, 1e-323]], [[-1e150, 1e150]], [[1.0, 1.0000000000000002]], [[1e307, 1.7e308]])):
         for algo in ("T_HOO", "SOO", "Zooming"):
